@@ -317,11 +317,15 @@ func K9() *Entry {
 	meta := M("Meta", F("Name"), F("Labels", MapOf()), F("Revision", Sc(ir.Int64)), F("Expires", TS(), Null()), F("Owner", MsgT("Owner")))
 	owner := M("Owner", F("Login"), F("Email"))
 	user := M("User", F("Meta", MsgT("Meta"), NonNull()), F("Backup", MsgT("Meta")), F("History", MsgT("Meta"), Rep()), F("ByName", MsgT("Meta"), MapOf()),
-		F("Spec", MsgT("UserSpec"), NonNull()), F("Title"))
+		F("Spec", MsgT("UserSpec"), NonNull()), F("Title"),
+		// `Tag.Label` (Message.Field key) is excluded; `PriceTag.Label` ends with the same text and must stay
+		F("Tag", MsgT("Tag")), F("PriceTag", MsgT("PriceTag")))
+	tag := M("Tag", F("Label"), F("Weight", Sc(ir.Int32)))
+	priceTag := M("PriceTag", F("Label"), F("Amount", Sc(ir.Int64)))
 	spec := M("UserSpec", F("Meta", MsgT("Meta")), F("Common", MsgT("Common"), NonNull(), Embed()), F("Level", Sc(ir.Int32)))
 	common := M("Common", F("Region"), F("Zone"), F("Contact", MsgT("Owner")))
 	pref := M("Pref", F("Meta", MsgT("Meta"), NonNull()), F("Common", MsgT("Common"), NonNull(), Embed()), F("Enabled", Sc(ir.Bool)))
-	f := file("k9", user, pref, spec, meta, owner, common)
+	f := file("k9", user, pref, spec, meta, owner, common, tag, priceTag)
 	AutoComments(f)
 	// Meta and Owner are exported themselves and occur below other exported types through
 	// fields named like the type (README: `Metadata Metadata = 1`)
@@ -350,7 +354,7 @@ func K9() *Entry {
 		}
 	}
 	// a path-specific exclusion below a nested occurrence of an exported type
-	c.ExcludeFields = []string{"Pref.Meta.Labels", "User.Spec.Meta.Owner.Email", "User.History.Owner.Login", "User.History.Owner.Email"}
+	c.ExcludeFields = []string{"Pref.Meta.Labels", "User.Spec.Meta.Owner.Email", "User.History.Owner.Login", "User.History.Owner.Email", "Tag.Label"}
 	// an explicit empty list under a full path switches off what the Message.Field key configures
 	c.Validators = map[string][]string{"Meta.Revision": {V("rev")}, "User.Meta.Revision": {}, "Owner.Login": {V("teleport.dev/login"), V("login.v2")}, "User.Backup.Owner.Login": {}}
 	// (on a field that is not computed: whether an explicit empty list also switches the UseStateForUnknown default off is not documented)
